@@ -127,11 +127,36 @@ def gen_crash_workloads(prof, ti, seed, stats):
     return out
 
 
+def segrecover_design(eng, ti):
+    """Design-level check of the tail writer / recoverTail at word granularity (spec/SegRecover.tla):
+    the repaired design must satisfy C01/C02/C03 for every torn-write subset and crash chain within the
+    bounds; the pinned design (Erase = FALSE) must be rejected (negative control, thorough tier)."""
+    consts = dict(N=(12, 16)[ti], MaxIdx=3, Sizes={1, 2}, MaxBatch=2, MaxCrashes=(2, 3)[ti], Erase=True,
+                  Looks=({"junk"}, {"junk", "ehdr"})[ti])
+    invs = ["C03_OpenSucceeds", "C01_AckedPresent", "C02_LatestContent", "C02_BatchAtomic", "C02_Durable"]
+    r = tlc("SegRecover", cfg_text(constants=consts, invariants=invs), timeout=(150, 1500)[ti])
+    if r.error == "timeout":
+        eng.stats["segrecover_timeout"] = True
+    elif r.error or r.violated:
+        raise Inconclusive("SegRecover (repaired design) failed: %s %s\n%s" % (r.error, r.violated, r.out[-3000:]))
+    eng.stats["design_states"] = eng.stats.get("design_states", 0) + r.generated
+    eng.stats["design_distinct"] = eng.stats.get("design_distinct", 0) + r.distinct
+    eng.stats["segrecover"] = {"consts": {k: (sorted(v) if isinstance(v, set) else v) for k, v in consts.items()},
+                               "distinct": r.distinct, "generated": r.generated, "wall": round(r.wall, 1)}
+    if ti == 1:
+        neg = tlc("SegRecover", cfg_text(constants=dict(consts, Erase=False, N=14, MaxCrashes=2, Looks={"junk"}), invariants=invs), timeout=600)
+        eng.stats["segrecover_negative_control"] = neg.violated
+        if not neg.violated:
+            raise Inconclusive("SegRecover negative control: the pinned design (no erase) was not rejected")
+
+
 def check_crash(pid, tier, seed):
     prof = CRASH_PROFILES[pid]
     ti = 0 if tier == "quick" else 1
     build(["walreplay"])
     eng = we.Engine(pid, tier, seed)
+    if pid == "C02":
+        segrecover_design(eng, ti)
     wl = gen_crash_workloads(prof, ti, seed, eng.stats)
     if not wl:
         raise Inconclusive("no workloads generated")
